@@ -138,6 +138,7 @@ Definition live_tbl (tbl : list entry) (gone : list N) : list entry :=
 Definition spec_event (tbl : list entry) (gone : list N) (l : list ssn) (ev : event) : list ssn * list (N * list N) :=
   match ev with
   | Remove p => (List.filter (fun s => negb (n_peer s =? p)) l, [])
+  | Reconf _ rm => (List.filter (fun s => negb (existsb (N.eqb (n_peer s)) rm)) l, [])
   | Handshake p idx key =>
       if gone_b gone p then (l, []) else
       ({| n_peer := p; n_idx := idx; n_key := key; n_age := 0;
@@ -184,7 +185,8 @@ Fixpoint holds_trace (tbl : list entry) (np : N) (gone : list N) (l : list ssn) 
   | [], _ => None
   | ev :: evs', o :: obs' =>
       let '(l', w) := spec_event tbl gone l ev in
-      let gone' := match ev with Remove p => p :: gone | _ => gone end in
-      if writes_ok np w o then holds_trace tbl np gone' l' evs' obs' (i + 1) else Some i
+      let gone' := match ev with Remove p => p :: gone | Reconf _ rm => rm ++ gone | _ => gone end in
+      let tbl' := match ev with Reconf t _ => t | _ => tbl end in     (* the configuration the set operation denotes *)
+      if writes_ok np w o then holds_trace tbl' np gone' l' evs' obs' (i + 1) else Some i
   | _ :: _, [] => Some i
   end.
